@@ -5,7 +5,7 @@ PAIRS = [
 ]
 PAIRS += [
     dict(name="arena_purge_delay", harness="harness/c18_arena.c", enforce="mi_arena_purge_delay", rg=True, replace=OPT, label="P", objbits=12,
-         functions=["mi_arena_purge_delay"]),
+         functions=["mi_arena_purge_delay"], solver="cadical"),   # minisat: >120 s on the overflow check of the product; cadical 5 s
 ]
 HS = "harness/seg_purge.c"
 STUBS = ["_mi_os_purge", "_mi_os_commit", "_mi_clock_now", "_mi_preloading"] + OPT
